@@ -23,6 +23,7 @@ SRC2 = {"json": {"k": [3]}, "text": "second", "pickle": (2,), "binary": b"\x02"}
 def run_files(ctx):
     overlapping_writes(ctx)
     long_paths(ctx)
+    leftover_longer(ctx)
     uj = core.use_repo()
     import c11_common as cc
     from uberjob.stores import BinaryFileStore, JsonFileStore, PickleFileStore, TextFileStore
@@ -224,3 +225,64 @@ def long_paths(ctx):
                      "%r and gave %r; expected to rebuild exactly ['US'] and give %r" % (sorted(calls), got, want), {"cut_run": cut, "calls": sorted(calls)})
     finally:
         shutil.rmtree(d, ignore_errors=True)
+
+
+def leftover_longer(ctx):
+    """a writer died while staging a LONG value; the input then changes so that the repairing run writes a SHORT value: the store
+    holds exactly the short value afterwards (the leftover staging file is overwritten from the start and truncated)"""
+    uj = core.use_repo()
+    from uberjob.stores import BinaryFileStore, JsonFileStore, PickleFileStore, TextFileStore
+    for name, cls, long_v, short_v in (("text", TextFileStore, "long " * 4000, "s"), ("json", JsonFileStore, list(range(3000)), [1]),
+                                       ("pickle", PickleFileStore, list(range(3000)), (1,)), ("binary", BinaryFileStore, b"L" * 20000, b"s")):
+        d = tempfile.mkdtemp(prefix="ujc08s_")
+        try:
+            P = lambda n: os.path.join(d, n)
+            box = {"v": long_v}
+            plan, reg = uj.Plan(), uj.Registry()
+            p_ = plan.call(lambda: box["v"])
+            reg.add(p_, cls(P("p.dat")))
+            c_ = plan.call(lambda v: ("derived", v), p_)
+            reg.add(c_, PickleFileStore(P("c.pkl")))
+            pid = os.fork()
+            if pid == 0:
+                # the child dies three quarters of the way through staging the long value
+                import builtins
+                import uberjob.stores._file_store as fsm
+
+                class Dying:
+                    def __init__(self, f):
+                        self.f, self.n = f, 0
+
+                    def write(self, data):
+                        k = max(1, len(data) * 3 // 4)
+                        self.f.write(data[:k])
+                        self.f.flush()
+                        os._exit(17)
+
+                    def __enter__(self):
+                        return self
+
+                    def __exit__(self, *a):
+                        return False
+
+                    def __getattr__(self, k):
+                        return getattr(self.f, k)
+                fsm.open = lambda pth, *a, **k: Dying(builtins.open(pth, *a, **k)) if str(pth).endswith("p.dat.STAGING") else builtins.open(pth, *a, **k)
+                try:
+                    uj.run(plan, registry=reg, output=c_, progress=None, max_workers=1)
+                finally:
+                    os._exit(3)
+            os.waitpid(pid, 0)
+            left = sorted(os.listdir(d))
+            box["v"] = short_v
+            ctx.case(("c08-leftover-longer", name))
+            try:
+                out = uj.run(plan, registry=reg, output=c_, progress=None, max_workers=1)
+                got = (out, cls(P("p.dat")).read())
+            except BaseException as e:      # noqa
+                got = ("raised %s" % type(e).__name__, str(e)[:100])
+            if got != (("derived", short_v), short_v):
+                ctx.fail("leftover-longer", "%s: a killed writer left %r; the next run (short value) returned / stored %r instead of %r"
+                         % (cls.__name__, left, (repr(got[0])[:60], repr(got[1])[:60]), (("derived", short_v), short_v)), {"store": name, "left_by_killed_writer": left})
+        finally:
+            shutil.rmtree(d, ignore_errors=True)
